@@ -213,6 +213,19 @@ def check_one(spec, style, st, res, env, via_draw=False):
             if after != before:
                 res.violation("C19:side-effect:%s" % style, "%s spec %r rejected but state changed" % (style, spec), dict(spec=spec, style=style))
                 st.snap = after
+            # the same rejection on an image in its default state (dynamic size): nothing
+            # about the image may have changed either
+            dyn = st.images_dyn[style]
+            d0 = sorted((k, repr(v)) for k, v in vars(dyn).items() if k != "_source")
+            try:
+                format(dyn, spec)
+            except Exception:
+                pass
+            d1 = sorted((k, repr(v)) for k, v in vars(dyn).items() if k != "_source")
+            res.count("rejections repeated on a dynamic-size image")
+            if d1 != d0:
+                res.violation("C19:side-effect:%s" % style, "%s spec %r rejected but the (dynamic-size) image changed: %s" % (style, spec, [(a, b) for a, b in zip(d0, d1) if a != b][:2]), dict(spec=spec, style=style))
+                st.images_dyn[style] = type(dyn)(dyn._source)
 
 
 def run_shard(shard, env):
@@ -226,6 +239,7 @@ def run_shard(shard, env):
     src = Image.new("RGBA", (2, 2))
     src.putdata([(250, 10, 20, 255), (30, 240, 50, 100), (60, 70, 230, 30), (5, 5, 5, 0)])
     st.images = {name: cls(src, width=2, height=1) for name, cls in style_classes().items()}
+    st.images_dyn = {name: cls(src) for name, cls in style_classes().items()}
     st.snap = snapshot(st.images)
     try:
         if "replay" in shard:
